@@ -242,7 +242,9 @@ Section Handle.
     nth_error (d_fields d) f = Some (FRaw r) -> CohAll s -> s_level s + 1 < MAXREC -> 0 <= offset ->
     exists s', seek_field dec (Datatypes.S k) d s f offset = (s', Val tt) /\ Pres s s' /\
       (rd_foff (get_rd d r) <= offset ->
-       At (get_rd d r) (get_rs s' r) (seek_target (get_rd d r) (offset - rd_foff (get_rd d r)))).
+       At (get_rd d r) (get_rs s' r) (seek_target (get_rd d r) (offset - rd_foff (get_rd d r)))) /\
+      r_open (get_rs s' r) = true /\
+      (offset < rd_foff (get_rd d r) -> r_fpos (get_rs s' r) = offset - rd_foff (get_rd d r)).
   Proof.
     intros Ef HC Hlv Hoff.
     pose proof (seek_field_pres (Datatypes.S k) s f offset) as [HP _].
@@ -255,15 +257,20 @@ Section Handle.
     destruct (open_raw_coh s1 r Hr (proj2 (CohAll_level s _) HC)) as [HC2 Hc2]. fold s2 rd in HC2, Hc2.
     destruct (rd_foff rd >? offset) eqn:Ep.
     - cbn [fst snd]. intros HP. eexists. split; [reflexivity|]. split; [exact HP|].
-      rewrite Z.gtb_ltb in Ep. apply Z.ltb_lt in Ep. lia.
+      rewrite Z.gtb_ltb in Ep. apply Z.ltb_lt in Ep. split; [lia|].
+      assert (Hg : get_rs (set_level (set_rs s2 r (set_fpos (get_rs s2 r) (offset - rd_foff rd)))
+                     (s_level (set_rs s2 r (set_fpos (get_rs s2 r) (offset - rd_foff rd))) - 1)) r
+                   = set_fpos (get_rs s2 r) (offset - rd_foff rd)).
+      { change (get_rs (set_level ?x ?l) r) with (get_rs x r). apply get_set_same. destruct HC2 as [Hl _]. lia. }
+      rewrite Hg. cbn. split; [apply Hc2|]. intros _. reflexivity.
     - rewrite Z.gtb_ltb in Ep. apply Z.ltb_ge in Ep.
       destruct (enc_seek_ok rd (get_rs s2 r) (offset - rd_foff rd) Hrd Hc2 ltac:(lia)) as (st' & p & Hs & Hat & Hp & Hp0).
       fold c. rewrite Hs. replace (p <? 0) with false by (symmetry; apply Z.ltb_ge; lia).
-      cbn [fst snd]. intros HP. eexists. split; [reflexivity|]. split; [exact HP|]. intros _.
+      cbn [fst snd]. intros HP. eexists. split; [reflexivity|]. split; [exact HP|].
       assert (Hg : get_rs (set_level (set_rs s2 r st') (s_level (set_rs s2 r st') - 1)) r = st').
       { change (get_rs (set_level (set_rs s2 r st') (s_level (set_rs s2 r st') - 1)) r) with (get_rs (set_rs s2 r st') r).
         apply get_set_same. destruct HC2 as [Hl _]. lia. }
-      rewrite Hg, <- Hp. exact Hat.
+      rewrite Hg, <- Hp. split; [intros _; exact Hat|]. split; [apply Hat|lia].
   Qed.
   (* ---------------------------------------------------------------- _GD_DoRaw *)
   Lemma target_count rd q n :
@@ -285,12 +292,13 @@ Section Handle.
       bytes_to_vals (get_rd d r) bs cnt = window (raw_val (get_rd d r)) s0 (Z.to_nat n) /\
       Pres s (set_rs s1 r st) /\
       At (get_rd d r) st (seek_target (get_rd d r) (s0 - rd_foff (get_rd d r)) +
-                          read_count (get_rd d r) (s0 - rd_foff (get_rd d r)) n).
+                          read_count (get_rd d r) (s0 - rd_foff (get_rd d r)) n) /\
+      get_rs (set_rs s1 r st) r = st.
   Proof.
     intros Ef HC Hlv Hs0 Hn.
     pose proof (field_wf _ _ Ef) as Hr. cbn in Hr. pose proof (raw_wf r Hr) as Hrd.
     set (rd := get_rd d r) in *. assert (Hfo : 0 <= rd_foff rd) by apply Hrd.
-    destruct (seek_raw_val k s f r s0 Ef HC Hlv ltac:(lia)) as (s1 & Hsk & [Hl1 HC1] & Hat). fold rd in Hat.
+    destruct (seek_raw_val k s f r s0 Ef HC Hlv ltac:(lia)) as (s1 & Hsk & [Hl1 HC1] & Hat & _). fold rd in Hat.
     specialize (Hat Hs0). specialize (HC1 HC).
     set (q := s0 - rd_foff rd) in *. set (t := seek_target rd q) in *.
     destruct (enc_read_ok rd (get_rs s1 r) t n Hrd Hat ltac:(lia)) as (st & bs & cnt & Hrd' & Hcnt & Hlen & Hpre & Hat').
@@ -305,7 +313,7 @@ Section Handle.
       rewrite Htq by (rewrite <- Htc, <- Hcnt; lia). reflexivity.
     - split.
       + split; [cbn; exact Hl1|]. intros _. apply CohAll_set; [exact HC1|]. intros _. apply (At_Coh _ _ _ Hat').
-      + rewrite <- Htc, <- Hcnt. exact Hat'.
+      + split; [rewrite <- Htc, <- Hcnt; exact Hat'|]. apply get_set_same. destruct HC1 as [Hl _]. lia.
   Qed.
 
   Lemma zeros_repeat n : zeros n = repeat 0 (Z.to_nat n).
@@ -314,11 +322,17 @@ Section Handle.
   Lemma do_raw_spec k s f r s0 ns :
     nth_error (d_fields d) f = Some (FRaw r) -> CohAll s -> s_level s + 1 < MAXREC ->
     exists s', do_raw dec (Datatypes.S k) d s f r s0 ns =
-               (s', Val (window (raw_val (get_rd d r)) s0 (Z.to_nat ns))) /\ Pres s s'.
+               (s', Val (window (raw_val (get_rd d r)) s0 (Z.to_nat ns))) /\ Pres s s' /\
+      (* the I/O pointer afterwards: the sample following the last one returned *)
+      (0 <= s0 -> window (raw_val (get_rd d r)) s0 (Z.to_nat ns) <> [] ->
+       r_open (get_rs s' r) = true /\
+       r_fpos (get_rs s' r) + rd_foff (get_rd d r) =
+         s0 + Z.of_nat (length (window (raw_val (get_rd d r)) s0 (Z.to_nat ns)))).
   Proof.
     intros Ef HC Hlv. unfold do_raw.
     destruct (ns <=? 0) eqn:En.
-    { apply Z.leb_le in En. replace (Z.to_nat ns) with O by lia. exists s. split; [reflexivity|apply Pres_refl]. }
+    { apply Z.leb_le in En. replace (Z.to_nat ns) with O by lia. exists s. split; [reflexivity|].
+      split; [apply Pres_refl|]. intros _ H. exfalso. apply H. reflexivity. }
     apply Z.leb_gt in En.
     pose proof (field_wf _ _ Ef) as Hr. cbn in Hr. pose proof (raw_wf r Hr) as Hrd.
     set (rd := get_rd d r) in *. assert (Hfo : 0 <= rd_foff rd) by apply Hrd.
@@ -335,10 +349,15 @@ Section Handle.
         { rewrite zeros_repeat. apply window_pad. intros j Hj. apply raw_val_pad. lia. }
         rewrite Hw.
         destruct (s0 + ns <? 0) eqn:Eneg; cbn [negb].
-        * exists s. split; [reflexivity|apply Pres_refl].
+        * apply Z.ltb_lt in Eneg. exists s. split; [reflexivity|]. split; [apply Pres_refl|]. intros; lia.
         * apply Z.ltb_ge in Eneg.
-          destruct (seek_raw_val k s f r (s0 + ns) Ef HC Hlv Eneg) as (s1 & -> & HP & _).
-          exists s1. split; [reflexivity|exact HP].
+          destruct (seek_raw_val k s f r (s0 + ns) Ef HC Hlv Eneg) as (s1 & -> & HP & Hat1 & Ho1 & Hps1).
+          exists s1. split; [reflexivity|]. split; [exact HP|]. intros _ _. split; [exact Ho1|]. fold rd in Hat1, Hps1.
+          rewrite zeros_repeat, repeat_length.
+          destruct (Z.eq_dec (s0 + ns) (rd_foff rd)) as [Heq|Hneq].
+          -- specialize (Hat1 ltac:(lia)). destruct Hat1 as (_ & Hfp & _). rewrite Hfp. rewrite Heq, Z.sub_diag.
+             pose proof (nsamp_bounds rd Hrd) as (Hn0 & _). unfold seek_target. destruct (rd_enc rd); lia.
+          -- rewrite Hps1 by lia. lia.
       + replace (Z.min ns (rd_foff rd - s0)) with (rd_foff rd - s0) by lia.
         set (zp := rd_foff rd - s0). set (n' := ns - zp).
         replace (n' >? 0) with true by (symmetry; rewrite Z.gtb_ltb; apply Z.ltb_lt; unfold n', zp; lia).
@@ -346,27 +365,42 @@ Section Handle.
         replace (rd_foff rd <? 0) with false by (symmetry; apply Z.ltb_ge; lia).
         cbn [andb orb negb].
         destruct (raw_read_phase k s f r (rd_foff rd) n' Ef HC Hlv ltac:(fold rd; lia) ltac:(unfold n', zp; lia))
-          as (s1 & st & bs & cnt & -> & Hrd' & Hc0 & Hlen & Hv & HP & _).
-        fold rd in Hrd', Hlen, Hv. rewrite Hrd'.
+          as (s1 & st & bs & cnt & -> & Hrd' & Hc0 & Hlen & Hv & HP & Hat & Hg).
+        fold rd in Hrd', Hlen, Hv, Hat. rewrite Hrd'.
         replace (cnt <? 0) with false by (symmetry; apply Z.ltb_ge; lia).
         replace (cnt * rd_size rd >? len bs) with false by (symmetry; rewrite Z.gtb_ltb; apply Z.ltb_ge; lia).
-        exists (set_rs s1 r st). split; [|exact HP]. do 2 f_equal. rewrite Hv.
-        replace (Z.to_nat ns) with (Z.to_nat zp + Z.to_nat n')%nat by (unfold n', zp; lia).
         assert (Hw : window (raw_val rd) s0 (Z.to_nat zp) = zeros zp).
         { rewrite zeros_repeat. apply window_pad. intros j Hj. apply raw_val_pad. unfold zp in *. lia. }
-        rewrite window_app by (rewrite Hw, zeros_repeat, repeat_length; reflexivity).
-        rewrite Hw. do 2 f_equal. unfold zp. lia.
+        assert (Hsplit : window (raw_val rd) s0 (Z.to_nat ns) = zeros zp ++ window (raw_val rd) (rd_foff rd) (Z.to_nat n')).
+        { replace (Z.to_nat ns) with (Z.to_nat zp + Z.to_nat n')%nat by (unfold n', zp; lia).
+          rewrite window_app by (rewrite Hw, zeros_repeat, repeat_length; reflexivity).
+          rewrite Hw. do 2 f_equal. unfold zp. lia. }
+        exists (set_rs s1 r st). split; [do 2 f_equal; rewrite Hv, Hsplit; reflexivity|]. split; [exact HP|].
+        intros _ _. rewrite Hg. split; [apply Hat|].
+        destruct Hat as (_ & Hfp & _). rewrite Hfp, Hsplit, app_length, zeros_repeat, repeat_length.
+        rewrite (window_raw_data rd (rd_foff rd) n' ltac:(lia) ltac:(unfold n', zp; lia)), map_length, seq_length.
+        rewrite Z.sub_diag.
+        pose proof (nsamp_bounds rd Hrd) as (Hn0 & _).
+        assert (seek_target rd 0 = 0) by (unfold seek_target; destruct (rd_enc rd); lia).
+        assert (0 <= read_count rd 0 n') by (unfold read_count; lia). unfold zp. lia.
     - apply Z.ltb_ge in Ez.
       replace (0 >? 0) with false by reflexivity. rewrite Z.sub_0_r, Z.add_0_r.
       replace (ns >? 0) with true by (symmetry; rewrite Z.gtb_ltb; apply Z.ltb_lt; lia).
       replace (s0 <? 0) with false by (symmetry; apply Z.ltb_ge; lia).
       cbn [andb orb negb].
       destruct (raw_read_phase k s f r s0 ns Ef HC Hlv ltac:(fold rd; lia) En)
-        as (s1 & st & bs & cnt & -> & Hrd' & Hc0 & Hlen & Hv & HP & _).
-      fold rd in Hrd', Hlen, Hv. rewrite Hrd'.
+        as (s1 & st & bs & cnt & -> & Hrd' & Hc0 & Hlen & Hv & HP & Hat & Hg).
+      fold rd in Hrd', Hlen, Hv, Hat. rewrite Hrd'.
       replace (cnt <? 0) with false by (symmetry; apply Z.ltb_ge; lia).
       replace (cnt * rd_size rd >? len bs) with false by (symmetry; rewrite Z.gtb_ltb; apply Z.ltb_ge; lia).
-      exists (set_rs s1 r st). split; [|exact HP]. rewrite Hv. reflexivity.
+      exists (set_rs s1 r st). split; [rewrite Hv; reflexivity|]. split; [exact HP|].
+      intros _ Hne. rewrite Hg. split; [apply Hat|].
+      destruct Hat as (_ & Hfp & _). rewrite Hfp.
+      rewrite (window_raw_data rd s0 ns Ez ltac:(lia)) in Hne |- *. rewrite map_length, seq_length.
+      assert (Hrc : 0 < read_count rd (s0 - rd_foff rd) ns).
+      { destruct (Z_lt_le_dec 0 (read_count rd (s0 - rd_foff rd) ns)); [assumption|].
+        exfalso. apply Hne. replace (Z.to_nat (read_count rd (s0 - rd_foff rd) ns)) with O by lia. reflexivity. }
+      destruct (target_count rd (s0 - rd_foff rd) ns Hrd ltac:(lia)) as [_ Htq]. rewrite (Htq Hrc). lia.
   Qed.
   (* ---------------------------------------------------------------- _GD_DoField *)
   (* the two inputs of every MULTIPLY are defined on the same samples (unequal extents are the
@@ -388,7 +422,12 @@ Section Handle.
     first + n + Z.of_nat fuel * SHIFT_MAX <= INT64_MAX ->
     forall hk, hk && (first =? -1) = false ->
     exists s', do_field dec fuel d s f hk first n =
-               (s', Val (window (spec_val fuel d f) first (Z.to_nat n))) /\ Pres s s'.
+               (s', Val (window (spec_val fuel d f) first (Z.to_nat n))) /\ Pres s s' /\
+      (* RAW fields: the I/O pointer ends on the sample following the last one returned *)
+      (forall r, fd = FRaw r -> 0 <= first -> window (spec_val fuel d f) first (Z.to_nat n) <> [] ->
+         r_open (get_rs s' r) = true /\
+         r_fpos (get_rs s' r) + rd_foff (get_rd d r) =
+           first + Z.of_nat (length (window (spec_val fuel d f) first (Z.to_nat n)))).
   Proof.
     intros Hmult. induction fuel as [|fuel IH]; intros s f fd first n Ef Hfu HC Hlv Hn Hrg hk Hhk; [lia|].
     cbn [do_field]. rewrite Hhk.
@@ -404,10 +443,13 @@ Section Handle.
     destruct fd as [r|i sh|i m b|i bn nb|a b]; cbn in Hwfd; unfold SHIFT_MAX in *.
     - (* RAW *)
       destruct fuel as [|k]; [lia|].
-      destruct (do_raw_spec k s1 f r first n Ef HC1 ltac:(cbn; unfold MAXREC; lia)) as (s2 & -> & [Hl2 HC2]).
-      eexists. split.
-      + f_equal. f_equal. apply window_ext. intros j. cbn [spec_val]. rewrite Ef. reflexivity.
-      + apply Pres_level_wrap; [exact Hl2|intros _; apply HC2, HC1].
+      destruct (do_raw_spec k s1 f r first n Ef HC1 ltac:(cbn; unfold MAXREC; lia)) as (s2 & -> & [Hl2 HC2] & Hptr).
+      assert (Hwe : window (spec_val (Datatypes.S (Datatypes.S k)) d f) first (Z.to_nat n) =
+                    window (raw_val (get_rd d r)) first (Z.to_nat n)).
+      { apply window_ext. intros j. cbn [spec_val]. rewrite Ef. reflexivity. }
+      eexists. split; [rewrite Hwe; reflexivity|].
+      split; [apply Pres_level_wrap; [exact Hl2|intros _; apply HC2, HC1]|].
+      intros r' Hfd Hf0 Hne. inversion Hfd; subst r'. rewrite Hwe in Hne |- *. exact (Hptr Hf0 Hne).
     - (* PHASE *)
       destruct Hwfd as [Hi Hsh].
       assert (Ei : exists fi, nth_error (d_fields d) i = Some fi).
@@ -415,30 +457,30 @@ Section Handle.
         assert (f < length (d_fields d))%nat by (apply nth_error_Some; congruence). lia. }
       destruct Ei as [fi Ei].
       destruct (IH s1 i fi (first + sh) n Ei ltac:(lia) HC1 ltac:(cbn; lia) Hn ltac:(apply Hrg'; lia) false eq_refl)
-        as (s2 & -> & [Hl2 HC2]).
+        as (s2 & -> & [Hl2 HC2] & _).
       eexists. split.
       + f_equal. f_equal. rewrite <- window_shift. apply window_ext. intros j. cbn [spec_val]. rewrite Ef. reflexivity.
-      + apply Pres_level_wrap; [exact Hl2|intros _; apply HC2, HC1].
+      + split; [apply Pres_level_wrap; [exact Hl2|intros _; apply HC2, HC1]|intros ? Hfd; discriminate Hfd].
     - (* LINCOM *)
       assert (Ei : exists fi, nth_error (d_fields d) i = Some fi).
       { destruct (nth_error (d_fields d) i) eqn:E; [eauto|]. apply nth_error_None in E.
         assert (f < length (d_fields d))%nat by (apply nth_error_Some; congruence). lia. }
       destruct Ei as [fi Ei].
       destruct (IH s1 i fi first n Ei ltac:(lia) HC1 ltac:(cbn; lia) Hn ltac:(specialize (Hrg' 0 ltac:(lia) n ltac:(lia)); lia) false eq_refl)
-        as (s2 & -> & [Hl2 HC2]).
+        as (s2 & -> & [Hl2 HC2] & _).
       eexists. split.
       + f_equal. f_equal. rewrite <- window_map. apply window_ext. intros j. cbn [spec_val]. rewrite Ef. reflexivity.
-      + apply Pres_level_wrap; [exact Hl2|intros _; apply HC2, HC1].
+      + split; [apply Pres_level_wrap; [exact Hl2|intros _; apply HC2, HC1]|intros ? Hfd; discriminate Hfd].
     - (* BIT *)
       assert (Ei : exists fi, nth_error (d_fields d) i = Some fi).
       { destruct (nth_error (d_fields d) i) eqn:E; [eauto|]. apply nth_error_None in E.
         assert (f < length (d_fields d))%nat by (apply nth_error_Some; congruence). lia. }
       destruct Ei as [fi Ei].
       destruct (IH s1 i fi first n Ei ltac:(lia) HC1 ltac:(cbn; lia) Hn ltac:(specialize (Hrg' 0 ltac:(lia) n ltac:(lia)); lia) false eq_refl)
-        as (s2 & -> & [Hl2 HC2]).
+        as (s2 & -> & [Hl2 HC2] & _).
       eexists. split.
       + f_equal. f_equal. rewrite <- window_map. apply window_ext. intros j. cbn [spec_val]. rewrite Ef. reflexivity.
-      + apply Pres_level_wrap; [exact Hl2|intros _; apply HC2, HC1].
+      + split; [apply Pres_level_wrap; [exact Hl2|intros _; apply HC2, HC1]|intros ? Hfd; discriminate Hfd].
     - (* MULTIPLY *)
       destruct Hwfd as [Ha Hb].
       assert (Hin : forall i, (i < f)%nat -> exists fi, nth_error (d_fields d) i = Some fi).
@@ -446,19 +488,19 @@ Section Handle.
         assert (f < length (d_fields d))%nat by (apply nth_error_Some; congruence). lia. }
       destruct (Hin a Ha) as [fa Ea]. destruct (Hin b Hb) as [fb Eb].
       destruct (IH s1 a fa first n Ea ltac:(lia) HC1 ltac:(cbn; lia) Hn ltac:(specialize (Hrg' 0 ltac:(lia) n ltac:(lia)); lia) false eq_refl)
-        as (s2 & -> & [Hl2 HC2]).
+        as (s2 & -> & [Hl2 HC2] & _).
       set (l1 := window (spec_val fuel d a) first (Z.to_nat n)).
       assert (Hspec : window (spec_val (Datatypes.S fuel) d f) first (Z.to_nat n) =
                       zipmul l1 (window (spec_val fuel d b) first (length l1))).
       { unfold l1. rewrite <- window_mult. apply window_ext. intros j. cbn [spec_val]. rewrite Ef. reflexivity. }
       destruct l1 as [|x l1'] eqn:El1.
       + eexists. split; [rewrite Hspec; reflexivity|].
-        apply Pres_level_wrap; [exact Hl2|intros _; apply HC2, HC1].
+        split; [apply Pres_level_wrap; [exact Hl2|intros _; apply HC2, HC1]|intros ? Hfd; discriminate Hfd].
       + assert (Hlen1 : 0 <= len (x :: l1') <= n).
         { split; [apply len_nonneg|]. unfold len. rewrite <- El1. unfold l1. pose proof (window_len (spec_val fuel d a) first (Z.to_nat n)). lia. }
         destruct (IH s2 b fb first (len (x :: l1')) Eb ltac:(lia) (HC2 HC1) ltac:(rewrite Hl2; cbn; lia) ltac:(lia)
                    ltac:(specialize (Hrg' 0 ltac:(lia) (len (x :: l1')) Hlen1); lia) false eq_refl)
-          as (s3 & -> & [Hl3 HC3]).
+          as (s3 & -> & [Hl3 HC3] & _).
         rewrite len_to_nat.
         set (l2 := window (spec_val fuel d b) first (length (x :: l1'))) in *.
         assert (Hne : l2 <> []).
@@ -468,7 +510,7 @@ Section Handle.
           intros Hb0. apply Ha0. apply (Hmult fuel f a b first Ef). exact Hb0. }
         destruct l2 as [|y l2'] eqn:El2; [congruence|].
         eexists. split; [rewrite Hspec; reflexivity|].
-        apply Pres_level_wrap; [rewrite Hl3; exact Hl2|intros _; apply HC3, HC2, HC1].
+        split; [apply Pres_level_wrap; [rewrite Hl3; exact Hl2|intros _; apply HC3, HC2, HC1]|intros ? Hfd; discriminate Hfd].
   Qed.
   (* ---------------------------------------------------------------- every call keeps the invariant *)
   Lemma do_field_pres : forall fuel s f hk first n,
@@ -497,7 +539,7 @@ Section Handle.
     destruct (nth_error (d_fields d) f) as [[r|i sh|i m b|i bn nb|a b]|] eqn:Ef; cbn [fst].
     - destruct Hf as [Hf|Hf]; [discriminate|]. destruct fuel as [|k]; [lia|].
       assert (Hlv2 : s_level s2 + 1 < MAXREC) by (unfold MAXREC; lia).
-      destruct (do_raw_spec k s2 f r first' n Ef HC2 Hlv2) as (s3 & -> & [Hl3 HC3]).
+      destruct (do_raw_spec k s2 f r first' n Ef HC2 Hlv2) as (s3 & -> & [Hl3 HC3] & _).
       cbn [fst]. apply Pres_level_wrap; [rewrite Hl3; exact Hl2|auto].
     - destruct Hf as [Hf|Hf]; [discriminate|]. destruct (field_wf _ _ Ef) as [Hi _].
       assert (Hfu_i : (i + 2 <= fuel)%nat) by lia.
@@ -597,7 +639,7 @@ Section Handle.
     replace (k <? -1) with false by (symmetry; apply Z.ltb_ge; lia).
     destruct (fuel_ok f) as [Hf|Hf]; [congruence|].
     destruct (do_field_spec Hm (FUEL d) s f fd k n Ef Hf HC ltac:(lia) ltac:(lia)
-               ltac:(unfold SHIFT_MAX, INT64_MAX; lia) true) as (s' & -> & _).
+               ltac:(unfold SHIFT_MAX, INT64_MAX; lia) true) as (s' & -> & _ & _).
     { replace (k =? -1) with false by (symmetry; apply Z.eqb_neq; lia). reflexivity. }
     reflexivity.
   Qed.
@@ -606,4 +648,158 @@ Section Handle.
     mult_ok -> nth_error (d_fields d) f = Some fd -> 0 <= k <= 2 ^ 61 -> 0 <= n <= 2 ^ 61 ->
     snd (step dec d (run dec d (init d) h) (CGet f (Some k) n)) = RData (spec_window d f k n).
   Proof. intros Hm Ef Hk Hn. apply (get_spec _ f fd); auto. apply run_inv. apply init_inv. Qed.
+  (* ================================================================ I/O pointers of RAW fields (C17) *)
+  Section RawPointer.
+    Variables (f r : nat).
+    Hypothesis Ef : nth_error (d_fields d) f = Some (FRaw r).
+    Let rd := get_rd d r.
+
+    Lemma FUEL_S2 : exists k, FUEL d = Datatypes.S (Datatypes.S k).
+    Proof. unfold FUEL. eauto. Qed.
+
+    Lemma r_in_range s : CohAll s -> (r < length (s_raws s))%nat.
+    Proof. intros [Hl _]. pose proof (field_wf _ _ Ef) as H. cbn in H. lia. Qed.
+
+    Lemma set_level_id s : set_level s (s_level s) = s.
+    Proof. destruct s. reflexivity. Qed.
+
+    (* gd_tell64 on an open RAW field reports file->pos + frame offset and changes nothing *)
+    Lemma tell_raw s :
+      InvH s -> r_open (get_rs s r) = true ->
+      step dec d s (CTell f) = (s, RPos (r_fpos (get_rs s r) + rd_foff rd)).
+    Proof.
+      intros [H0 HC] Ho. unfold step. destruct FUEL_S2 as [k ->]. cbn [get_iopos].
+      rewrite H0. cbn -[open_raw get_rs]. rewrite Ef. unfold open_raw.
+      change (get_rs (set_level s 1) r) with (get_rs s r). rewrite Ho.
+      change (get_rs (set_level s 1) r) with (get_rs s r). cbn.
+      f_equal. change (set_level (set_level s 1) 0) with (set_level s 0). rewrite <- H0. apply set_level_id.
+    Qed.
+
+    (* gd_getdata64 at an absolute position: the data, and the pointer afterwards *)
+    Lemma get_raw_ptr s k n :
+      mult_ok -> InvH s -> 0 <= k <= 2 ^ 61 -> 0 <= n <= 2 ^ 61 ->
+      exists s', step dec d s (CGet f (Some k) n) = (s', RData (spec_window d f k n)) /\ InvH s' /\
+        (spec_window d f k n <> [] ->
+         r_open (get_rs s' r) = true /\ r_fpos (get_rs s' r) + rd_foff rd = k + len (spec_window d f k n)).
+    Proof.
+      intros Hm [H0 HC] Hk Hn. pose proof FUEL_small as HF. cbn [step].
+      replace (k <? -1) with false by (symmetry; apply Z.ltb_ge; lia).
+      destruct (fuel_ok f) as [Hf|Hf]; [congruence|].
+      destruct (do_field_spec Hm (FUEL d) s f (FRaw r) k n Ef Hf HC ltac:(lia) ltac:(lia)
+                 ltac:(unfold SHIFT_MAX, INT64_MAX; lia) true) as (s' & -> & HP & Hptr).
+      { replace (k =? -1) with false by (symmetry; apply Z.eqb_neq; lia). reflexivity. }
+      exists s'. split; [reflexivity|]. split; [apply (Pres_Inv _ _ HP); split; assumption|].
+      intros Hne. apply (Hptr r eq_refl ltac:(lia) Hne).
+    Qed.
+
+    (* "after a successful gd_getdata that transferred m samples starting at k, gd_tell reports k+m" *)
+    Lemma tell_after_get_raw s k n :
+      mult_ok -> InvH s -> 0 <= k <= 2 ^ 61 -> 0 <= n <= 2 ^ 61 -> spec_window d f k n <> [] ->
+      snd (step dec d (fst (step dec d s (CGet f (Some k) n))) (CTell f)) = RPos (k + len (spec_window d f k n)).
+    Proof.
+      intros Hm HI Hk Hn Hne. destruct (get_raw_ptr s k n Hm HI Hk Hn) as (s' & -> & HI' & Hp).
+      destruct (Hp Hne) as [Ho Hfp]. cbn [fst]. rewrite (tell_raw s' HI' Ho). cbn [snd]. f_equal. exact Hfp.
+    Qed.
+
+    (* the core of gd_seek64: _GD_Seek to tgt then _GD_GetIOPos *)
+    Lemma seek_then_tell s tgt :
+      InvH s -> rd_foff rd <= tgt <= rd_foff rd + nsamp rd ->
+      exists s2, seek_field dec (FUEL d) d s f tgt = (s2, Val tt) /\ InvH s2 /\
+        r_open (get_rs s2 r) = true /\ r_fpos (get_rs s2 r) + rd_foff rd = tgt.
+    Proof.
+      intros [H0 HC] Ht. destruct FUEL_S2 as [k ->].
+      assert (Hfo : 0 <= rd_foff rd) by (apply raw_wf; pose proof (field_wf _ _ Ef) as H; exact H).
+      destruct (seek_raw_val (Datatypes.S k) s f r tgt Ef HC ltac:(rewrite H0; unfold MAXREC; lia) ltac:(lia))
+        as (s2 & Hs & HP & Hat & Ho & _). fold rd in Hat.
+      exists s2. split; [exact Hs|]. split; [apply (Pres_Inv _ _ HP); split; assumption|]. split; [exact Ho|].
+      destruct (Hat ltac:(lia)) as (_ & Hfp & _). rewrite Hfp.
+      pose proof (nsamp_bounds rd (raw_wf r ltac:(pose proof (field_wf _ _ Ef) as H; exact H))) as (Hn0 & _).
+      unfold seek_target. destruct (rd_enc rd); lia.
+    Qed.
+
+    (* gd_seek64(GD_SEEK_SET | GD_SEEK_END) to a position between the beginning- and the end-of-field
+       establishes and returns exactly that position; every encoding *)
+    Lemma seek_set_raw s p :
+      InvH s -> rd_foff rd <= p <= rd_foff rd + nsamp rd ->
+      exists s', step dec d s (CSeek f p WSet) = (s', RPos p) /\ InvH s' /\
+        r_open (get_rs s' r) = true /\ r_fpos (get_rs s' r) + rd_foff rd = p.
+    Proof.
+      intros HI Hp. unfold step. rewrite Z.add_0_r.
+      destruct (seek_then_tell s p HI Hp) as (s2 & -> & HI2 & Ho & Hfp).
+      pose proof (tell_raw s2 HI2 Ho) as Ht. unfold step in Ht. rewrite Ht.
+      exists s2. rewrite Hfp. auto.
+    Qed.
+
+    Lemma seek_end_raw s off :
+      InvH s -> - nsamp rd <= off <= 0 ->
+      exists s', step dec d s (CSeek f off WEnd) = (s', RPos (rd_foff rd + nsamp rd + off)) /\ InvH s' /\
+        r_open (get_rs s' r) = true /\ r_fpos (get_rs s' r) + rd_foff rd = rd_foff rd + nsamp rd + off.
+    Proof.
+      intros HI Hoff. unfold step.
+      assert (He : eof_field (FUEL d) d f = nsamp rd + rd_foff rd).
+      { destruct FUEL_S2 as [k ->]. cbn [eof_field]. rewrite Ef. reflexivity. }
+      rewrite He.
+      destruct (seek_then_tell s (off + (nsamp rd + rd_foff rd)) HI ltac:(lia)) as (s2 & -> & HI2 & Ho & Hfp).
+      pose proof (tell_raw s2 HI2 Ho) as Ht. unfold step in Ht. rewrite Ht.
+      exists s2. rewrite Hfp. replace (off + (nsamp rd + rd_foff rd)) with (rd_foff rd + nsamp rd + off) by ring. auto.
+    Qed.
+
+    Lemma seek_cur_raw s off :
+      InvH s -> r_open (get_rs s r) = true ->
+      rd_foff rd <= r_fpos (get_rs s r) + rd_foff rd + off <= rd_foff rd + nsamp rd ->
+      exists s', step dec d s (CSeek f off WCur) = (s', RPos (r_fpos (get_rs s r) + rd_foff rd + off)) /\ InvH s' /\
+        r_open (get_rs s' r) = true /\ r_fpos (get_rs s' r) + rd_foff rd = r_fpos (get_rs s r) + rd_foff rd + off.
+    Proof.
+      intros HI Ho Hp. unfold step.
+      pose proof (tell_raw s HI Ho) as Ht0. unfold step in Ht0.
+      destruct (get_iopos (FUEL d) d s f) as [s1 [q|e|]]; inversion Ht0 as [[Hs1 Hq]]; try subst s1; try subst q.
+      destruct (seek_then_tell s (off + (r_fpos (get_rs s r) + rd_foff rd)) HI ltac:(lia)) as (s2 & -> & HI2 & Ho2 & Hfp).
+      pose proof (tell_raw s2 HI2 Ho2) as Ht. unfold step in Ht. rewrite Ht.
+      exists s2. rewrite Hfp.
+      replace (off + (r_fpos (get_rs s r) + rd_foff rd)) with (r_fpos (get_rs s r) + rd_foff rd + off) by ring. auto.
+    Qed.
+
+    (* _GD_GetIOPos on an open RAW field, at any recursion level *)
+    Lemma iopos_raw_open k s :
+      s_level s + 1 < MAXREC -> r_open (get_rs s r) = true ->
+      get_iopos (Datatypes.S k) d s f = (s, Val (r_fpos (get_rs s r) + rd_foff rd)).
+    Proof.
+      intros Hl Ho. cbn [get_iopos].
+      replace (s_level s + 1 >=? MAXREC) with false by (symmetry; rewrite Z.geb_leb; apply Z.leb_gt; lia).
+      rewrite Ef. unfold open_raw.
+      change (get_rs (set_level s (s_level s + 1)) r) with (get_rs s r). rewrite Ho.
+      change (get_rs (set_level s (s_level s + 1)) r) with (get_rs s r).
+      f_equal. change (s_level (set_level s (s_level s + 1))) with (s_level s + 1).
+      change (set_level (set_level s (s_level s + 1)) (s_level s + 1 - 1)) with (set_level s (s_level s + 1 - 1)).
+      replace (s_level s + 1 - 1) with (s_level s) by lia. apply set_level_id.
+    Qed.
+
+    Lemma do_field_here_eq k s n s2 p :
+      get_iopos k d (set_level s (s_level s + 1)) f = (s2, Val p) -> s2 = set_level s (s_level s + 1) ->
+      do_field dec (Datatypes.S k) d s f true (-1) n = do_field dec (Datatypes.S k) d s f false p n.
+    Proof.
+      intros Hg Hs2. cbn [do_field]. destruct (s_level s + 1 >=? MAXREC); [reflexivity|].
+      change (true && (-1 =? -1)) with true. change (false && (p =? -1)) with false. cbv iota.
+      rewrite Hg, Hs2. reflexivity.
+    Qed.
+
+    (* a GD_HERE read returns the window starting at the position gd_tell reports *)
+    Lemma here_raw s n :
+      mult_ok -> InvH s -> r_open (get_rs s r) = true ->
+      0 <= r_fpos (get_rs s r) + rd_foff rd <= 2 ^ 61 -> 0 <= n <= 2 ^ 61 ->
+      snd (step dec d s (CGet f None n)) = RData (spec_window d f (r_fpos (get_rs s r) + rd_foff rd) n).
+    Proof.
+      intros Hm [H0 HC] Ho Hp Hn. pose proof FUEL_small as HF.
+      set (p := r_fpos (get_rs s r) + rd_foff rd) in *.
+      assert (Heq : do_field dec (FUEL d) d s f true (-1) n = do_field dec (FUEL d) d s f false p n).
+      { destruct FUEL_S2 as [k Hk]. rewrite Hk.
+        apply (do_field_here_eq (Datatypes.S k) s n (set_level s (s_level s + 1)) p); [|reflexivity].
+        apply (iopos_raw_open k (set_level s (s_level s + 1))); [cbn; rewrite H0; unfold MAXREC; lia|exact Ho]. }
+      cbn [step]. replace (-1 <? -1) with false by reflexivity. rewrite Heq.
+      destruct (fuel_ok f) as [Hf|Hf]; [congruence|].
+      destruct (do_field_spec Hm (FUEL d) s f (FRaw r) p n Ef Hf HC ltac:(lia) ltac:(lia)
+                 ltac:(unfold SHIFT_MAX, INT64_MAX; lia) false eq_refl) as (s' & -> & _).
+      reflexivity.
+    Qed.
+  End RawPointer.
 End Handle.
